@@ -174,7 +174,7 @@ def compare(exp, obs):
         o = obs.get(k, "<missing>")
         if k == "temperature" and isinstance(o, (int, float)) and abs(o - v) < 1e-9:
             continue
-        if o != v or type(o) is not type(v):
+        if o != v or not isinstance(o, type(v)) or (type(v) is int and isinstance(o, bool)):
             bad.append((k, v, o))
     return bad
 
